@@ -171,6 +171,8 @@ def run_readers(case):
             subsets.append([str(c) for c in rng.permutation(allcols)[:k]])
             if kind == "computed":
                 subsets = [s for s in subsets if s is not None]
+                subsets.append(["computed"])                      # only the computed column
+                subsets.append(["computed", allcols[0]])          # computed column first
             for cols in subsets:
                 exp = exp_all if cols is None else exp_all[cols]
                 c = core.Call(reader.read, columns=cols)
